@@ -128,3 +128,44 @@ Lemma observe_after_reset : forall h r s, ready s = true -> reset_like r = true 
 Proof.
   intros h r s H Hr. unfold observe. rewrite (fresh_equiv h r s H Hr). simpl. repeat split; reflexivity.
 Qed.
+
+(* ------------------------------------------------------------------ logger / heap independence as erasure *)
+(* steps that only touch loggers, the heap, or the second (passive) emitter *)
+Definition ambient_step (x : step) : bool :=
+  match x with SLogger _ | SEmLogger _ | SHeap _ | SExtra _ => true | _ => false end.
+Definition erase_ambient (h : list step) : list step := filter (fun x => negb (ambient_step x)) h.
+
+Lemma ambient_step_keeps : forall x s, ambient_step x = true ->
+  s_core (do_step x s) = s_core s /\ s_valid (do_step x s) = s_valid s.
+Proof.
+  intros x s H. destruct x; simpl in H; try discriminate; simpl; try (split; reflexivity); destruct on; split; reflexivity.
+Qed.
+
+(* Attaching / detaching loggers (holder or emitter), perturbing the heap, attaching a passive second emitter -- at ANY points of a
+   history -- never changes what the history does to the core: the script with all those steps erased leads to the same core and
+   configuration. (Model-level statement of "output does not depend on whether logging is attached, nor on heap layout".) *)
+Theorem erase_ambient_same_core : forall h s1 s2,
+  s_core s1 = s_core s2 -> s_valid s1 = s_valid s2 ->
+  s_core (run h s1) = s_core (run (erase_ambient h) s2) /\ s_valid (run h s1) = s_valid (run (erase_ambient h) s2).
+Proof.
+  induction h as [|x h IH]; intros s1 s2 Hc Hv; [split; assumption|].
+  unfold erase_ambient. cbn [filter]. destruct (ambient_step x) eqn:E; cbn [negb].
+  - rewrite run_cons. destruct (ambient_step_keeps x s1 E) as [A B]. apply IH; [rewrite A; exact Hc | rewrite B; exact Hv].
+  - rewrite !run_cons. apply IH; [apply step_core_congr; exact Hc | apply step_valid_congr; assumption].
+Qed.
+
+(* the same for ANY next step, in particular for a program whose counter effects the model computes (SProg) *)
+Theorem any_step_after_reset_equals_fresh : forall h r n s x,
+  ready s = true -> reset_like r = true -> forallb neutral n = true ->
+  s_core (do_step x (run (h ++ r :: n) s)) = s_core (do_step x state0).
+Proof.
+  intros h r n s x H Hr Hn. apply step_core_congr.
+  replace (h ++ r :: n) with ((h ++ [r]) ++ n) by (rewrite <- app_assoc; reflexivity).
+  rewrite run_app. rewrite (neutral_run_core0 n (run (h ++ [r]) s) (fresh_equiv h r s H Hr) Hn). reflexivity.
+Qed.
+
+(* what a program does to the counters, from the fresh core: labels, sections, registers and annotations are computed *)
+Example prog_effect_example :
+  let c := s_core (do_step (SProg [PLabels 2; PNamed 7; PNamed 7; PSection; PAddrTab; PAddrTab; PFunc 0; PConst; PConst; PEndFunc; PAnnot] 3 false) state0) in
+  (c_lab c, c_sec c, c_rel c, c_vregs c, c_ja c) = (6, 3, 3, 1, 1).
+Proof. reflexivity. Qed.
